@@ -46,13 +46,19 @@ theorem paintAt_temperature (tag : Nat) (ms : Models R) (ctx : Ctx R) (q : Query
 
 theorem linePaintAtM_temperature (f : LineFeature R) (ctx : Ctx R) (q : Query R) (h : LineHit R) (t : R) (g : G) :
     linePaintAtM f ctx q h Req.temperature 0 [t] g =
-      .ok ([(h.cur.temps.foldl (fun (t : R) (m : LineTemp R) => m.get f.isFault ctx q.depth q.gravityNorm h.pd t) t) + h.pd.fractionOfSection *
-            ((h.next.temps.foldl (fun (t : R) (m : LineTemp R) => m.get f.isFault ctx q.depth q.gravityNorm h.pd t) t) -
-             (h.cur.temps.foldl (fun (t : R) (m : LineTemp R) => m.get f.isFault ctx q.depth q.gravityNorm h.pd t) t))], g) := by
+      (h.cur.temps.foldlM (fun (t : R) (m : SegTemp R) => m.get f.isFault ctx q.depth q.gravityNorm h.pd h.ap t) t >>= fun tc =>
+       h.next.temps.foldlM (fun (t : R) (m : SegTemp R) => m.get f.isFault ctx q.depth q.gravityNorm h.pd h.ap t) t >>= fun tn =>
+       (pure (tc + h.pd.fractionOfSection * (tn - tc)) : Except Err R)).map (fun t' => ([t'], g)) := by
   have h0 : idx [t] 0 = .ok t := rfl
   simp only [linePaintAtM, LineHit.prepare, Segment.prepare, Req.temperature, linePaintAt, h0,
     bind, Except.bind, pure, Except.pure, writeBlock_single]
-  rfl
+  show liftE _ g = _
+  cases hc : h.cur.temps.foldlM (fun (t : R) (m : SegTemp R) => m.get f.isFault ctx q.depth q.gravityNorm h.pd h.ap t) t with
+  | error e => simp only [hc, liftE_error, Except.map]
+  | ok tc =>
+    cases hn : h.next.temps.foldlM (fun (t : R) (m : SegTemp R) => m.get f.isFault ctx q.depth q.gravityNorm h.pd h.ap t) t with
+    | error e => simp only [hc, hn, liftE_error, Except.map]
+    | ok tn => simp only [hc, hn, liftE_ok, Except.map]
 
 /-- a feature asked for the temperature alone: `applyTemp` -/
 theorem Feature.apply_temperature (f : Feature R) (ctx : Ctx R) (q : Query R) (t : R) (g : G) :
